@@ -3854,6 +3854,280 @@ fn run_g3(sh: &Shared, per_case_wd: bool, only: Option<usize>) -> (u64, u64) {
     (evals.load(AO::Relaxed), failing.load(AO::Relaxed))
 }
 
+// ---------------- space E: escaped / quoted spellings of the tokens of every field kind -------
+//
+// RFC 1035 section 5.1: "\X where X is any character other than a digit
+// (0-9), is used to quote that character so that its special meaning does
+// not apply" and "\DDD where each D is a digit is the octet corresponding to
+// the decimal number described by DDD.  The resulting octet is assumed to be
+// text and is not checked for special meaning."  This is said of the
+// character encoding of the file, not of names and character strings only:
+// a data token in which one character is written `\X` / `\DDD` is the same
+// token.  The other layout spaces apply these spellings to names and
+// character strings; this space applies them to the remaining field kinds
+// the reader decodes from text: Base16 fields (one token: NSEC3 salt;
+// "whitespace is allowed within the hexadecimal text": DS / CDS / TLSA /
+// SSHFP / ZONEMD digests and the RFC 3597 `\# n hex` words), Base64 and
+// Base32hex fields, integer fields of the RDATA and the TTL, and mnemonic
+// fields of the RDATA (type bitmap mnemonics, algorithm mnemonic).  The class
+// and type words of the entry head are not rewritten (RFC 1035 leaves
+// escaped class / type words open).
+//
+// Rewrites of one token: one character at every position written `\X` (any
+// character but a decimal digit - a digit after a backslash would start a
+// `\DDD`) or `\DDD` of its ASCII code, or every character written so; the
+// token plain or quoted; fields that may be written as several words also
+// cut into two words just before / just after the rewritten character (hex:
+// at octet boundaries).  Oracle: exactly the logical records (hand-encoded
+// wire of the record + sentinel), as for every other layout rewrite.
+
+#[derive(Clone, Copy, PartialEq, Eq, Debug)]
+enum FK {
+    Fixed,
+    Int,
+    Mnem,
+    Hex,
+    HexWords,
+    B64Words,
+    B32,
+}
+
+struct ERec {
+    mnem: &'static str,
+    rtype: u16,
+    /// RDATA tokens: (field name, plain text, kind)
+    toks: Vec<(&'static str, String, FK)>,
+    wire: Vec<u8>,
+}
+
+fn b32hex(data: &[u8]) -> String {
+    const A: &[u8] = b"0123456789ABCDEFGHIJKLMNOPQRSTUV";
+    let mut out = String::new();
+    let (mut acc, mut bits) = (0u32, 0u32);
+    for &b in data {
+        acc = ((acc & 0xff) << 8) | b as u32;
+        bits += 8;
+        while bits >= 5 {
+            bits -= 5;
+            out.push(A[((acc >> bits) & 31) as usize] as char);
+        }
+    }
+    if bits > 0 {
+        out.push(A[((acc << (5 - bits)) & 31) as usize] as char);
+    }
+    out
+}
+
+fn e_menu() -> Vec<ERec> {
+    let r = |mnem: &'static str, rtype: u16, toks: &[(&'static str, &str, FK)], wire: Vec<u8>| ERec { mnem, rtype, toks: toks.iter().map(|(f, t, k)| (*f, t.to_string(), *k)).collect(), wire };
+    let hash: Vec<u8> = (0u8..20).map(|i| i.wrapping_mul(37).wrapping_add(0x5b)).collect();
+    let h32 = b32hex(&hash);
+    let mut nsec3 = vec![1, 0, 0, 10, 2, 0xab, 0x0c, 20];
+    nsec3.extend_from_slice(&hash);
+    nsec3.extend_from_slice(&[0, 3, 0x40, 0x00, 0x80]);
+    let mut nsec = name_wire(&["a", "z"]);
+    nsec.extend_from_slice(&[0, 3, 0x40, 0x00, 0x80]);
+    let mut soa = name_wire(&["ns", "z"]);
+    soa.extend(name_wire(&["h", "z"]));
+    for n in [4021u32, 7200, 600, 86400, 30] {
+        soa.extend_from_slice(&n.to_be_bytes());
+    }
+    let mut mx = vec![0, 10];
+    mx.extend(name_wire(&["m", "z"]));
+    let zd: Vec<u8> = (0u8..48).map(|i| i.wrapping_mul(29).wrapping_add(0xa7)).collect();
+    let mut zonemd = vec![0, 0, 0x07, 0xe5, 1, 1];
+    zonemd.extend_from_slice(&zd);
+    // mixed case so that both letter cases are rewritten
+    let zd_hex: String = hex(&zd).chars().enumerate().map(|(i, c)| if i % 3 == 0 { c.to_ascii_uppercase() } else { c }).collect();
+    vec![
+        r("DS", 43, &[("key-tag", "12345", FK::Int), ("algorithm", "8", FK::Int), ("digest-type", "2", FK::Int), ("digest", "0a1BcDeF", FK::HexWords)], vec![0x30, 0x39, 8, 2, 0x0a, 0x1b, 0xcd, 0xef]),
+        r("CDS", 59, &[("key-tag", "12345", FK::Int), ("algorithm", "8", FK::Int), ("digest-type", "2", FK::Int), ("digest", "Fe0a", FK::HexWords)], vec![0x30, 0x39, 8, 2, 0xfe, 0x0a]),
+        r("DNSKEY", 48, &[("flags", "256", FK::Int), ("protocol", "3", FK::Int), ("algorithm", "8", FK::Int), ("key", "AQIDBAUG", FK::B64Words)], vec![1, 0, 3, 8, 1, 2, 3, 4, 5, 6]),
+        r("DNSKEY", 48, &[("flags", "257", FK::Int), ("protocol", "3", FK::Int), ("algorithm", "13", FK::Int), ("key", "q80+/w==", FK::B64Words)], vec![1, 1, 3, 13, 0xab, 0xcd, 0x3e, 0xff]),
+        r("SSHFP", 44, &[("algorithm", "1", FK::Int), ("type", "1", FK::Int), ("fingerprint", "ab0C", FK::HexWords)], vec![1, 1, 0xab, 0x0c]),
+        r("TLSA", 52, &[("usage", "3", FK::Int), ("selector", "1", FK::Int), ("matching", "1", FK::Int), ("data", "aB0cD2", FK::HexWords)], vec![3, 1, 1, 0xab, 0x0c, 0xd2]),
+        r("ZONEMD", 63, &[("serial", "2021", FK::Int), ("scheme", "1", FK::Int), ("algorithm", "1", FK::Int), ("digest", &zd_hex, FK::HexWords)], zonemd),
+        r("NSEC3", 50, &[("algorithm", "1", FK::Int), ("flags", "0", FK::Int), ("iterations", "10", FK::Int), ("salt", "aB0c", FK::Hex), ("next-hashed-owner", &h32, FK::B32), ("type-bitmap", "A", FK::Mnem), ("type-bitmap", "TXT", FK::Mnem)], nsec3),
+        r("NSEC3PARAM", 51, &[("algorithm", "1", FK::Int), ("flags", "0", FK::Int), ("iterations", "10", FK::Int), ("salt", "aB0c", FK::Hex)], vec![1, 0, 0, 10, 2, 0xab, 0x0c]),
+        r("NSEC", 47, &[("next", "a.z.", FK::Fixed), ("type-bitmap", "A", FK::Mnem), ("type-bitmap", "TXT", FK::Mnem)], nsec),
+        r("TYPE65280", 65280, &[("generic-marker", "\\#", FK::Fixed), ("generic-length", "4", FK::Int), ("generic-data", "0a1BcDeF", FK::HexWords)], vec![0x0a, 0x1b, 0xcd, 0xef]),
+        r("A", 1, &[("generic-marker", "\\#", FK::Fixed), ("generic-length", "4", FK::Int), ("generic-data", "C00002fa", FK::HexWords)], vec![192, 0, 2, 250]),
+        r("MX", 15, &[("preference", "10", FK::Int), ("exchange", "m.z.", FK::Fixed)], mx),
+        r("SOA", 6, &[("mname", "ns.z.", FK::Fixed), ("rname", "h.z.", FK::Fixed), ("serial", "4021", FK::Int), ("refresh", "7200", FK::Int), ("retry", "600", FK::Int), ("expire", "86400", FK::Int), ("minimum", "30", FK::Int)], soa),
+    ]
+}
+
+const E_SPELLINGS: [&str; 4] = ["one-x-escape", "one-ddd-escape", "all-non-digits-x-escaped", "all-ddd-escaped"];
+const E_SPLITS: [&str; 3] = ["one-word", "cut-before", "cut-after"];
+
+/// The words of one rewritten token; None = this rewrite does not exist.
+/// Spelling 0: the character at `p` (not a decimal digit) as `\X`; 1: the
+/// character at `p` as `\DDD`; 2 (p = 0 only): every character that is not a
+/// decimal digit as `\X`; 3 (p = 0 only): every character as `\DDD`.
+fn e_token(tok: &str, kind: FK, p: usize, spelling: usize, quoted: bool, split: usize) -> Option<Vec<String>> {
+    let b = tok.as_bytes();
+    match spelling {
+        0 if b[p].is_ascii_digit() => return None,
+        2 if p != 0 || b.iter().all(|c| c.is_ascii_digit()) => return None,
+        3 if p != 0 => return None,
+        _ => {}
+    }
+    let cut = match split {
+        0 => None,
+        _ => {
+            let at = match (kind, split) {
+                (FK::HexWords, 1) => p & !1,
+                (FK::HexWords, _) => (p + 2) & !1,
+                (FK::B64Words, 1) => p,
+                (FK::B64Words, _) => p + 1,
+                _ => return None,
+            };
+            if at == 0 || at >= b.len() {
+                return None;
+            }
+            Some(at)
+        }
+    };
+    let word = |from: usize, to: usize| {
+        let mut s = String::new();
+        if quoted {
+            s.push('"');
+        }
+        for i in from..to {
+            let c = b[i];
+            let (x, ddd) = match spelling {
+                0 => (i == p, false),
+                1 => (false, i == p),
+                2 => (!c.is_ascii_digit(), false),
+                _ => (false, true),
+            };
+            if x {
+                s.push('\\');
+                s.push(c as char);
+            } else if ddd {
+                s.push_str(&format!("\\{:03}", c));
+            } else {
+                s.push(c as char);
+            }
+        }
+        if quoted {
+            s.push('"');
+        }
+        s
+    };
+    Some(match cut {
+        None => vec![word(0, b.len())],
+        Some(at) => vec![word(0, at), word(at, b.len())],
+    })
+}
+
+/// File of one E case: the token `ti` (0 = the TTL, 1.. = RDATA token ti-1) replaced by `words`.
+fn e_text(rec: &ERec, ti: usize, words: Option<&[String]>) -> (String, Vec<Vec<u8>>) {
+    let mut toks: Vec<String> = vec!["a".into(), "IN".into()];
+    let put = |toks: &mut Vec<String>, i: usize, plain: &str| match words {
+        Some(w) if i == ti => toks.extend(w.iter().cloned()),
+        _ => toks.push(plain.to_string()),
+    };
+    put(&mut toks, 0, "60");
+    toks.push(rec.mnem.to_string());
+    for (i, (_, t, _)) in rec.toks.iter().enumerate() {
+        put(&mut toks, i + 1, t);
+    }
+    let text = format!("$ORIGIN z.\n{}\n{}", toks.join(" "), G_SENTINEL);
+    (text, vec![rec_wire(&["a", "z"], rec.rtype, 1, 60, &rec.wire), g_sentinel_entry()])
+}
+
+fn run_e(sh: &Shared, lc: &LayoutCounters, per_case_wd: bool) -> (u64, u64) {
+    let menu = e_menu();
+    let mut l = Local::default();
+    let mut failing = 0u64;
+    if !per_case_wd {
+        sh.wd.enter(|| json!({"part": "layout-chunk", "space": "E"}));
+    }
+    for (ri, rec) in menu.iter().enumerate() {
+        let (plain, expected) = e_text(rec, 0, None);
+        l.evals += 1;
+        l.nontrivial.push(fnv(plain.as_bytes()));
+        if let Some((class, what)) = layout_verdict(&plain, &expected) {
+            failing += 1;
+            let sig = format!("C07|layout|E|type={}|plain|{class}", rec.mnem);
+            sh.ctx.violation(&sig, &format!("{what}; plain rendering {plain:?}"), json!({"part": "layout", "space": "E", "rec": ri, "text": plain, "expected_hex": expected.iter().map(|e| hex(e)).collect::<Vec<_>>()}));
+            continue;
+        }
+        for ti in 0..=rec.toks.len() {
+            let (field, tok, kind) = if ti == 0 { ("ttl", "60".to_string(), FK::Int) } else { let t = &rec.toks[ti - 1]; (t.0, t.1.clone(), t.2) };
+            if kind == FK::Fixed {
+                continue;
+            }
+            let eval = |p: usize, s: usize, q: bool, split: usize| -> Option<(String, Option<(String, String)>)> {
+                let words = e_token(&tok, kind, p, s, q, split)?;
+                let (text, expected) = e_text(rec, ti, Some(&words));
+                let v = layout_verdict(&text, &expected);
+                Some((text, v))
+            };
+            for p in 0..tok.len() {
+                for s in 0..4 {
+                    for q in [false, true] {
+                        for split in 0..3 {
+                            let Some((text, v)) = eval(p, s, q, split) else { continue };
+                            if per_case_wd {
+                                sh.wd.enter(|| json!({"part": "layout", "space": "E", "text": text, "expected_hex": expected.iter().map(|e| hex(e)).collect::<Vec<_>>()}));
+                                let _ = layout_verdict(&text, &expected);
+                                sh.wd.leave();
+                            }
+                            l.evals += 1;
+                            if !q && split == 0 {
+                                l.nontrivial.push(fnv(text.as_bytes()));
+                            }
+                            l.bump(&format!("escaped-fields.E.renderings.{kind:?}.{}{}", E_SPELLINGS[s], if q { ".quoted" } else { "" }));
+                            let Some((class, what)) = v else { continue };
+                            failing += 1;
+                            l.bump(&format!("escaped-fields.E.failing.{kind:?}.{}.{class}", E_SPELLINGS[s]));
+                            // simplest rewrite of the same character that fails in the same way
+                            let (mut mq, mut msplit, mut mtext) = (q, split, text.clone());
+                            for (cq, cs) in [(false, 0), (q, 0), (false, split)] {
+                                if (cq, cs) == (q, split) {
+                                    break;
+                                }
+                                if let Some((t, Some((c2, _)))) = eval(p, s, cq, cs) {
+                                    if c2 == class {
+                                        (mq, msplit, mtext) = (cq, cs, t);
+                                        break;
+                                    }
+                                }
+                            }
+                            // A decimal escape (\DDD) of a character inside a number, Base16, Base32hex or
+                            // Base64 token is refused by the reader for every such field alike (one cause per
+                            // field kind: Symbol::into_char / into_digit do not take decimal escapes); it is
+                            // reported per field KIND. Everything else is reported per type and field.
+                            let sig = if s == 1 || s == 3 {
+                                format!("C07|layout|E|kind={kind:?}|decimal-escape-of-a-token-character|{class}", class = class.split(':').next().unwrap_or("?"))
+                            } else {
+                                format!("C07|layout|E|type={}|field={field}|kind={kind:?}|spelling={}|token={}|words={}|{class}", rec.mnem, E_SPELLINGS[s], if mq { "quoted" } else { "unquoted" }, E_SPLITS[msplit], class = class.split(':').next().unwrap_or("?"))
+                            };
+                            if first_in_thread(&sig) {
+                                sh.ctx.violation(
+                                    &sig,
+                                    &format!("{what}; the plain spelling {plain:?} gives the logical records; rewritten character {:?} at position {p} of the {field} token; simplest failing rendering {mtext:?}", tok.as_bytes()[p] as char),
+                                    json!({"part": "layout", "space": "E", "rec": ri, "token": ti, "position": p, "spelling": E_SPELLINGS[s], "quoted": q, "split": E_SPLITS[split], "text": text, "minimal_text": mtext, "expected_hex": expected.iter().map(|e| hex(e)).collect::<Vec<_>>()}),
+                                );
+                            }
+                        }
+                    }
+                }
+            }
+        }
+    }
+    if !per_case_wd {
+        sh.wd.leave();
+    }
+    let n = l.evals;
+    lc.renderings.fetch_add(n, AO::Relaxed);
+    lc.failing.fetch_add(failing, AO::Relaxed);
+    sh.absorb(l);
+    (n, failing)
+}
+
 // ===================================================================
 // main
 // ===================================================================
@@ -3997,6 +4271,9 @@ fn replay(sh: &Shared, lc: &LayoutCounters, case: &Value) {
             let pc = PCounts { evals: AtomicU64::new(0), failing: AtomicU64::new(0), damage: AtomicU64::new(0), damage_failing: AtomicU64::new(0) };
             run_p(sh, lc, &pc, false, true, Some((n("kind_index"), n("form"), n("head"), case["first_group"].as_u64().map(|x| x as usize))));
         }
+        "layout-chunk" if case["space"].as_str() == Some("E") => {
+            run_e(sh, lc, true);
+        }
         "layout-chunk" => {
             if case["space"].as_str() == Some("L1") {
                 let h: Vec<usize> = case["head"].as_array().map(|a| a.iter().map(|x| x.as_u64().unwrap_or(0) as usize).collect()).unwrap_or_default();
@@ -4105,6 +4382,7 @@ fn main() {
     let (mut limits_cases, mut limits_failing) = (0u64, 0u64);
     let (mut zone_cases, mut zone_failing) = (0u64, 0u64);
     let (mut generic_cases, mut generic_failing) = ([0u64; 3], 0u64);
+    let mut escaped = (0u64, 0u64);
     if let Some(path) = &ctx.replay {
         let text = std::fs::read_to_string(path).expect("replay file");
         let v: Value = serde_json::from_str(&text).expect("replay json");
@@ -4132,6 +4410,8 @@ fn main() {
         }
         run_p(&sh, &lc, &pc, quick, false, None);
         lap("layout P (groups)");
+        escaped = run_e(&sh, &lc, false);
+        lap("layout E (escaped / quoted tokens of hex, base64, base32hex, integer and mnemonic fields)");
         let (n, f) = run_limits(&sh, false, None);
         limits_cases = n;
         limits_failing = f;
@@ -4183,6 +4463,7 @@ fn main() {
                                            if quick { "lf only" } else { "all 7" },
                                            if quick { "" } else { " | two inside positions at a time x {lf, comment+lf}^2 for <= 2 groups" },
                                            if quick { "2 for entries with <= 8 token boundaries, else 1" } else { "2" }),
+                       "layout_E": "escaped / quoted spellings of the tokens of the remaining field kinds (RFC 1035 5.1 \\X and \\DDD hold for every token): file $ORIGIN + record + sentinel; 14 records (DS, CDS, DNSKEY with algorithm number / mnemonic, SSHFP, TLSA, ZONEMD, NSEC3, NSEC3PARAM, NSEC, TYPE65280 and A as \\# n hex, MX, SOA); every token of kind integer (TTL, key tag, algorithm, flags, iterations, preference, serial.., generic length), mnemonic (type bitmap, algorithm), Base16 (salt; digests / fingerprints / generic data, mixed case), Base64 (key incl. + / and = padding), Base32hex (next hashed owner) x every character position x {\\X (non-digits), \\DDD, all characters escaped} x {unquoted, quoted} x {one word, cut into two words before / after the rewritten character where white space is allowed within the field (hex at octet boundaries)}; oracle: exactly the logical records (hand-encoded wire)",
                        "limits_L3": "label length {1,62,63,64,65} x {plain, one \\DDD / \\X / escaped dot at every octet, all \\DDD} x label {alone,first,middle,last} x {relative,absolute} x {owner, MX exchange, SOA mname, SOA rname, $ORIGIN, $INCLUDE origin}; name wire length {254,255,256} x {4 long labels, 125 one-octet labels} x {relative,absolute} x {plain, all \\DDD, one \\DDD / \\X in first/middle/last label at first/last octet} x {owner, MX exchange, $ORIGIN, $INCLUDE origin}; character string length {0,1,254,255,256} x {unquoted, quoted} x {plain, all \\DDD, one \\DDD / \\X / space / escaped quote at every octet} x {TXT only/first/second string, HINFO cpu/os}; integers {0,max-1,max,max+1,max+10,next power of ten,10*max(,99999999999)} x {plain, 1 or 3 leading zeros} x {TTL after/before/without class, $TTL, SOA serial/refresh/retry/expire/minimum, MX preference, SSHFP algorithm/type}; TTL-typed fields use 2^31-1 as the largest value that must be accepted and 2^32 as the smallest that must be rejected",
                        "zone_route_Z": if quick { "SOA + every sequence of <= 2 records from a 10-record menu (apex NS, A, TXT, second A, cut NS, glue A, DS, CNAME, A next to the CNAME, out-of-zone A); renderings SOA owner(2) x style(2), per record owner(3) x class-ttl(2) x style(2); routes try_from and new+set_origin+insert" } else { "SOA + every sequence of <= 3 records from a 10-record menu (apex NS, A, TXT, second A, cut NS, glue A, DS, CNAME, A next to the CNAME, out-of-zone A); renderings SOA owner(2) x style(2), per record owner(3) x class-ttl(2) x style(2); routes try_from and new+set_origin+insert" },
                        "generic_G": if quick { GENERIC_COVERAGE.replace("<K>", "2") } else { GENERIC_COVERAGE.replace("<K>", "3") },
@@ -4194,6 +4475,8 @@ fn main() {
             "zone_route_failing": zone_failing,
             "limits_cases": limits_cases,
             "limits_failing_cases": limits_failing,
+            "escaped_field_renderings": escaped.0,
+            "escaped_field_failing_renderings": escaped.1,
             "paren_group_renderings": pc.evals.load(AO::Relaxed),
             "paren_group_failing_renderings": pc.failing.load(AO::Relaxed),
             "paren_damage_cases": pc.damage.load(AO::Relaxed),
@@ -4210,7 +4493,7 @@ fn main() {
             "layout rewrites used are those whose equivalence follows from RFC 1035 5.1 and RFC 2308 4: omitted TTL = $TTL if a $TTL directive precedes, else last explicitly stated TTL; omitted class = last explicitly stated class; blank owner = last stated owner; files whose first record omits the TTL without $TTL, or omits the class, are not part of the relation",
             "parentheses are set off by white space in the layout renderings of L1, L2, Z and G; space P also writes every grouping without any white space next to the parentheses; a parenthesis before the owner field / a directive name is not part of the relation (RFC 1035 does not say whether the owner field may be grouped)",
             "space P, damage part: an end of file inside an open group and a ')' without '(' are taken to be errors (RFC 1035 5.1 defines parentheses only as pairs grouping data across line boundaries)",
-            "limits: escaped digits in integer fields and quoted domain names are not part of the relation (RFC 1035 does not give them a meaning); TTL values between 2^31 and 2^32-1 are left to the implementation (RFC 2181 section 8)",
+            "limits: the limit cases are not combined with escaped digits (space E rewrites the digits of integer fields at their ordinary values); quoted domain names and escaped characters in the class / type words of the entry head are not part of the relation (RFC 1035 does not give them a meaning); TTL values between 2^31 and 2^32-1 are left to the implementation (RFC 2181 section 8)",
             "hang detection is a 120 s wall-clock watchdog per chunk of <=4096 cases",
         ],
     );
